@@ -484,7 +484,7 @@ def emit_typedef(prog, t, bodies, ind="    "):
         for vn, e in t.variants:
             va = "".join("%s    %s\n" % (ind, a) for a in getattr(t, "variant_attrs", {}).get(vn, []))
             out.append(va)
-            out.append("%s    %s%s,\n" % (ind, vn, " = %d" % e if e is not None else ""))
+            out.append("%s    %s%s,\n" % (ind, vn, " = %s" % int_lit(e, getattr(t, "lit_styles", {}).get(vn)) if e is not None else ""))
         out.append("%s}\n" % ind)
     elif t.kind in ("struct", "outstruct"):
         if t.out:
@@ -507,13 +507,23 @@ def emit_typedef(prog, t, bodies, ind="    "):
         else:
             out.append("%spub struct %s { pub id: u32, pub seed: u32, pub touched: u32 }\n" % (ind, t.name))
     if t.methods:
-        for a in getattr(t, "impl_attrs", []):
-            out.append("%s%s\n" % (ind, a))
-        out.append("%simpl%s %s%s {\n" % (ind, gens, t.name, use_gens))
-        for m in t.methods:
-            out.append(emit_method(prog, t, m, bodies, ind + "    "))
-        out.append("%s}\n" % ind)
+        # one impl block, or the same methods spread over several (each carries the impl-level attributes, so what they mean is unchanged)
+        cuts = sorted(set(c for c in getattr(t, "impl_cuts", ()) if 0 < c < len(t.methods)))
+        for lo, hi in zip([0] + cuts, cuts + [len(t.methods)]):
+            for a in getattr(t, "impl_attrs", []):
+                out.append("%s%s\n" % (ind, a))
+            out.append("%simpl%s %s%s {\n" % (ind, gens, t.name, use_gens))
+            for m in t.methods[lo:hi]:
+                out.append(emit_method(prog, t, m, bodies, ind + "    "))
+            out.append("%s}\n" % ind)
     return "".join(out)
+
+
+def int_lit(v, style):
+    """the same discriminant in another literal spelling (hex, octal, binary, digit separators)"""
+    a = abs(v)
+    body = {"hex": "0x%X" % a, "oct": "0o%o" % a, "bin": "0b%s" % bin(a)[2:], "under": "{:_}".format(a), "hexu": "0x%s" % "_".join(("%04x" % a)[i:i + 2] for i in (0, 2)) if a < 65536 else "0x%x" % a}.get(style, "%d" % a)
+    return ("-" if v < 0 else "") + body
 
 
 def dyn_ty(prog, cb):
